@@ -111,31 +111,25 @@ impl PushParser {
     pub fn parse_program(push_state: &mut PushState, instruction_set: &InstructionSet, code: &str) {
         let mut depth = 0;
         for token in code.split_whitespace() {
-            if token.starts_with("INT[") {
-                PushParser::parse_vector(
-                    push_state,
-                    depth,
-                    &VectorType::Int,
-                    &token[4..token.len() - 1],
-                );
+            if let Some(rest) = token.strip_prefix("INT[") {
+                // A literal that is not closed by ']' is malformed and ignored
+                if let Some(elements) = rest.strip_suffix("]") {
+                    PushParser::parse_vector(push_state, depth, &VectorType::Int, elements);
+                }
                 continue;
             }
-            if token.starts_with("FLOAT[") {
-                PushParser::parse_vector(
-                    push_state,
-                    depth,
-                    &VectorType::Float,
-                    &token[6..token.len() - 1],
-                );
+            if let Some(rest) = token.strip_prefix("FLOAT[") {
+                // A literal that is not closed by ']' is malformed and ignored
+                if let Some(elements) = rest.strip_suffix("]") {
+                    PushParser::parse_vector(push_state, depth, &VectorType::Float, elements);
+                }
                 continue;
             }
-            if token.starts_with("BOOL[") {
-                PushParser::parse_vector(
-                    push_state,
-                    depth,
-                    &VectorType::Bool,
-                    &token[5..token.len() - 1],
-                );
+            if let Some(rest) = token.strip_prefix("BOOL[") {
+                // A literal that is not closed by ']' is malformed and ignored
+                if let Some(elements) = rest.strip_suffix("]") {
+                    PushParser::parse_vector(push_state, depth, &VectorType::Bool, elements);
+                }
                 continue;
             }
             if "(" == token {
